@@ -329,6 +329,7 @@ func Prelude() string {
 (declare-datatypes ((Ref 0)) (((nil) (obj (oid Int)) (elem (earr Int) (eidx Int)))))
 (declare-datatypes ((Slice 0)) (((mkslice (sarr Int) (soff Int) (slen Int) (scap Int)))))
 (declare-datatypes ((Iface 0)) (((mkiface (itag Int) (iref Ref) (iint Int) (istr Str) (ibool Bool) (ireal Real) (islice Slice)))))
+(declare-datatypes ((Fuel 0)) (((FZ) (FS (fpred Fuel)))))
 (declare-const str_empty Str)
 (define-fun iface_nil () Iface (mkiface 0 nil 0 str_empty false 0.0 (mkslice 0 0 0 0)))
 (define-fun alloc ((r Ref) (n Int)) Bool (ite ((_ is obj) r) (and (< 0 (oid r)) (< (oid r) n)) (ite ((_ is elem) r) (and (< 0 (earr r)) (< (earr r) n)) true)))
